@@ -275,3 +275,21 @@ def exc_instance_decider(cfg, exc_class):
                 return False
         return None
     return decide
+
+
+def resolve_expr(rd, node, expr, depth=6):
+    """`expr` as evaluated at CFG node `node`, with local names that have exactly one reaching definition (a plain
+    assignment) replaced by the defining expression, recursively"""
+    class Sub(ast.NodeTransformer):
+        def visit_Name(self, n):
+            if not isinstance(n.ctx, ast.Load) or depth <= 0:
+                return n
+            ds = rd.at(node, n.id)
+            if len(ds) != 1:
+                return n
+            d = list(ds)[0]
+            if d == "param" or not (d.kind == "stmt" and isinstance(d.ast, ast.Assign) and len(d.ast.targets) == 1 and
+                                    isinstance(d.ast.targets[0], ast.Name)):
+                return n
+            return resolve_expr(rd, d, d.ast.value, depth - 1)
+    return Sub().visit(A.clone(expr))
